@@ -209,48 +209,52 @@ fn body_v1(ch: &Ch) -> Run {
     Some(" \u{e9}\u{1F600} @deno-types=\"./a.d.ts\""),
     Some(" @deno-types=\"./\u{e9}.d.ts\""),
   ];
-  let pragma = pragma_forms[ch.shape("pragma", pragma_forms.len())];
-  let unrelated_before = ch.flag("unrelated_comment_before");
-  let unrelated_after = ch.flag("unrelated_comment_after");
   let block = ch.flag("block_comment");
+  let n_stmts = 1 + ch.shape("statements", 3);
   // (only static imports: for them the statement's leading comments are the
   // import's leading comments, which is what a v1 manifest recorded)
-  let dynamic = false;
-  // the source the v1 manifest was computed from
-  let mut comments: Vec<String> = vec![];
-  if unrelated_before {
-    comments.push(" just a comment".into());
-  }
-  if let Some(p) = pragma {
-    comments.push(p.to_string());
-  }
-  if unrelated_after {
-    comments.push(" trailing remark".into());
-  }
   let mut src = String::new();
-  let mut v1_comments = vec![];
-  for (line, c) in comments.iter().enumerate() {
-    let text = if block { format!("/*{c}*/") } else { format!("//{c}") };
-    v1_comments.push(json!({"text": c, "range": [[line, 0], [line, text.chars().count()]]}));
-    src.push_str(&text);
-    src.push('\n');
+  let mut v1_deps = vec![];
+  let mut any_pragma = false;
+  let mut line = 0usize;
+  for k in 0..n_stmts {
+    let pragma = pragma_forms[ch.shape("pragma", pragma_forms.len())];
+    any_pragma |= pragma.is_some();
+    let unrelated_before = ch.flag("unrelated_comment_before");
+    let unrelated_after = ch.flag("unrelated_comment_after");
+    let mut comments: Vec<String> = vec![];
+    if unrelated_before {
+      comments.push(" just a comment".into());
+    }
+    if let Some(p) = pragma {
+      comments.push(p.to_string());
+    }
+    if unrelated_after {
+      comments.push(" trailing remark".into());
+    }
+    // a v1 manifest omits the key for an import without leading comments
+    let omit_empty_key = comments.is_empty() && ch.flag("leadingComments_key_omitted");
+    let mut v1_comments = vec![];
+    for c in &comments {
+      let text = if block { format!("/*{c}*/") } else { format!("//{c}") };
+      v1_comments.push(json!({"text": c, "range": [[line, 0], [line, text.chars().count()]]}));
+      src.push_str(&text);
+      src.push('\n');
+      line += 1;
+    }
+    let name = ["a", "b", "c"][k];
+    let stmt = format!("import {name} from \"./{name}.js\";\n");
+    let mut dep = json!({"type": "static", "kind": "import", "specifier": format!("./{name}.js"), "specifierRange": [[line, 14], [line, 22]]});
+    if !omit_empty_key {
+      dep["leadingComments"] = json!(v1_comments);
+    }
+    v1_deps.push(dep);
+    src.push_str(&stmt);
+    line += 1;
   }
-  let line = comments.len();
-  let (stmt, v1_dep) = if dynamic {
-    (
-      "await import(\"./a.js\");\n".to_string(),
-      json!({"type": "dynamic", "argument": "./a.js", "argumentRange": [[line, 13], [line, 21]], "leadingComments": v1_comments}),
-    )
-  } else {
-    (
-      "import a from \"./a.js\";\n".to_string(),
-      json!({"type": "static", "kind": "import", "specifier": "./a.js", "specifierRange": [[line, 14], [line, 22]], "leadingComments": v1_comments}),
-    )
-  };
-  src.push_str(&stmt);
   let version_info = deno_graph::packages::JsrPackageVersionInfo {
     exports: json!({".": "./mod.ts"}),
-    module_graph_1: Some(json!({"/mod.ts": {"dependencies": [v1_dep]}})),
+    module_graph_1: Some(json!({"/mod.ts": {"dependencies": v1_deps}})),
     module_graph_2: None,
     manifest: Default::default(),
     lockfile_checksum: None,
@@ -261,30 +265,34 @@ fn body_v1(ch: &Ch) -> Run {
   let parsed = deno_graph::ast::ParserModuleAnalyzer::default()
     .analyze_sync(&spec, src.clone().into(), MediaType::TypeScript)
     .unwrap();
-  let types_of = |i: &ModuleInfo| {
-    i.dependencies.first().and_then(|d| match d {
-      DependencyDescriptor::Static(s) => s.types_specifier.as_ref().map(|t| t.text.clone()),
-      DependencyDescriptor::Dynamic(s) => s.types_specifier.as_ref().map(|t| t.text.clone()),
-    })
+  // per dependency: (specifier, types specifier)
+  let types_of = |i: &ModuleInfo| -> Vec<(String, Option<String>)> {
+    i.dependencies
+      .iter()
+      .map(|d| match d {
+        DependencyDescriptor::Static(s) => (s.specifier.clone(), s.types_specifier.as_ref().map(|t| t.text.clone())),
+        DependencyDescriptor::Dynamic(s) => (format!("{:?}", s.argument), s.types_specifier.as_ref().map(|t| t.text.clone())),
+      })
+      .collect()
   };
   let case = json!({"source": src, "v1": version_info.module_graph_1});
   match &upgraded {
     None => run.violate("v1-manifest-entry-not-upgraded", "module_info() returned None for a moduleGraph1 entry", case.clone()),
     Some(u) => {
-      if types_of(u) != types_of(&parsed) {
-        run.violate(
-          "v1-upgrade-loses-deno-types",
-          format!("upgraded types specifier {:?}, analysing the source gives {:?}", types_of(u), types_of(&parsed)),
-          case.clone(),
-        );
-      }
       if u.dependencies.len() != parsed.dependencies.len() {
         run.violate("v1-upgrade-changes-dependency-count", format!("{} vs {}", u.dependencies.len(), parsed.dependencies.len()), case.clone());
+      } else if types_of(u) != types_of(&parsed) {
+        let lost = types_of(u).iter().zip(types_of(&parsed).iter()).any(|(a, b)| a.1.is_none() && b.1.is_some());
+        run.violate(
+          if lost { "v1-upgrade-loses-deno-types" } else { "v1-upgrade-invents-deno-types" },
+          format!("upgraded (specifier, types specifier) {:?}, analysing the source gives {:?}", types_of(u), types_of(&parsed)),
+          case.clone(),
+        );
       }
     }
   }
   run.state_key = hash_of(&src);
-  run.nontrivial = pragma.is_some();
+  run.nontrivial = any_pragma;
   run.outcome_key = hash_of(&format!("{:?}", upgraded.as_ref().map(types_of)));
   if ch.describe() {
     run.sample = Some(case);
